@@ -70,6 +70,8 @@ FailOuts(kinds, classes, ras) == { Out(o, k, ra) : o \in kinds, k \in classes, r
 
 RetsOne == {Val(1)}
 RasNone == {None}
+BFaultsNone == {"none"}
+BFaultsAll == {"none", "error", "kbd", "sysexit", "cancel"}
 AdvsExact == {"exact"}
 AdvsThree == {"exact", "over4", "none"}
 RasSome == {None, 0, 2}
